@@ -28,6 +28,12 @@ func unescapeParameter(b bytes.Bytes) bytes.Bytes {
 	return c
 }
 
+// UnescapeParameter gives the value of a directive parameter as it is meant:
+// without the quotes and escapes of its quoted spelling.
+func UnescapeParameter(b bytes.Bytes) bytes.Bytes {
+	return unescapeParameter(b)
+}
+
 func IsArrayOfTypes(b bytes.Bytes) bool {
 	l := len(b)
 	if l >= 4 && b[0] == '[' && b[l-1] == ']' {
